@@ -162,6 +162,13 @@ def battery(t, rng: random.Random, obs: Optional[Observers] = None, after: str =
         if got != exp or got2 != exp:
             out.append((f"find_node:wrong-path-for-id:{cls}", f"id {node.id}: {got}/{got2} vs {exp}"))
             break
+        if got != p:
+            # node search and path lookup disagree on where this node is: the node at path p carries an id that
+            # find_node resolves to another path -- the tree holds the same node (identity) twice, which no public
+            # operation applied to trees with distinct ids may produce
+            out.append((f"find_node:node-at-path-is-found-at-another-path:{cls}",
+                        f"get_subtree({p}).id = {node.id}, find_node({node.id}) = {got} (after {after})"))
+            break
     if t.find_node(-12345) is not None:
         out.append(("find_node:absent-id-found", "id -12345"))
     # (f) trie view
